@@ -2,6 +2,7 @@
 // strict prefix, the full stream and streams with one altered tensor payload byte through a tracing std::streambuf.
 //   stream_driver <out.ndjson> <seed> <scale> [alterations per payload byte: 1 (sanitizer build) or 3]
 #include <algorithm>
+#include <array>
 #include "problems.h"
 #include <cstring>
 #include <functional>
@@ -16,7 +17,9 @@
 #include <nano/tuner.h>
 #include <nano/wlearner.h>
 #include <nano/wlearner/dtree.h>
+#include <nano/version.h>
 #include <nano/wlearner/single.h>
+#include <nano/wlearner/table.h>
 #include <sstream>
 
 using namespace nano;
@@ -413,7 +416,7 @@ void put_alterations(const blob_t& blob, const std::string& what, const std::vec
     }
     else
     {
-        vt::put(vt::J(what).s("kind", blob.kind).a("outcomes", outcomes));
+        vt::put(vt::J(what.c_str()).s("kind", blob.kind).a("outcomes", outcomes));
     }
 }
 
@@ -546,6 +549,42 @@ void emit_runs(const blob_t& blob, bool bytelevel, int64_t alterations, vt::Rng&
         vt::put(vt::J("HeaderFlips").s("kind", blob.kind).i("n", nheader).b("survived", true));
     }
 }
+// a small regression problem with several outputs (a structured target)
+vt::problem_t make_multi_problem(vt::Rng& rng)
+{
+    const auto n = rng.range(20, 50), outputs = rng.range(2, 3);
+    auto       x1 = vt::make_scalar_column("x1", feature_type::float64, n);
+    auto       x2 = vt::make_scalar_column("x2", feature_type::float32, n);
+    auto       c1 = vt::make_sclass_column("c1", 3, n);
+    auto       m1 = vt::make_mclass_column("m1", 2, n);
+    auto       y  = vt::make_struct_column("y", feature_type::float64, make_dims(outputs, 1, 1), n);
+    for (int64_t s = 0; s < n; ++s)
+    {
+        const auto u = static_cast<size_t>(s);
+        x1.flat[u]   = static_cast<double>(rng.range(-8, 8)) / 4.0;
+        x2.flat[u]   = static_cast<double>(rng.range(-5, 5));
+        c1.flat[u]   = static_cast<double>(rng.range(0, 2));
+        m1.flat[2 * u] = rng.coin() ? 1.0 : 0.0;
+        m1.flat[2 * u + 1] = rng.coin() ? 1.0 : 0.0;
+        x2.missing[u] = static_cast<char>(rng.coin(1, 8));
+        c1.missing[u] = static_cast<char>(rng.coin(1, 10));
+        m1.missing[u] = static_cast<char>(rng.coin(1, 10));
+        for (int64_t k = 0; k < outputs; ++k)
+        {
+            y.flat[static_cast<size_t>(s * outputs + k)] = (1.0 + static_cast<double>(k)) * x1.at(s) - 0.5 * static_cast<double>(k) * x2.at(s) + (k == 1 ? 1.5 : -0.5) * c1.at(s) +
+                                                           2.0 * m1.at(s, k % 2) + rng.uniform(-0.3, 0.3);
+        }
+    }
+    vt::problem_t p;
+    p.source = std::make_unique<vt::table_datasource_t>(n, std::vector<vt::column_t>{x1, x2, c1, m1, y}, 4U);
+    p.source->load();
+    p.dataset = std::make_unique<dataset_t>(*p.source, static_cast<size_t>(rng.range(1, 4)));
+    p.dataset->add<sclass_identity_generator_t>();
+    p.dataset->add<mclass_identity_generator_t>();
+    p.dataset->add<scalar_identity_generator_t>();
+    p.dataset->add<struct_identity_generator_t>();
+    return p;
+}
 } // namespace
 
 int main(int argc, char* argv[])
@@ -558,6 +597,9 @@ int main(int argc, char* argv[])
     vt::Trace::get().open(argv[1]);
     vt::Rng    rng(static_cast<uint64_t>(std::atoll(argv[2])));
     const auto scale = std::atoll(argv[3]);
+    // the number of alterations per payload byte: the small corpus read back under the sanitizers gets one (every failed read is slow there)
+    const auto alterations = argc > 4 ? std::atoll(argv[4]) : int64_t{3};
+    const auto sanitized   = alterations < 2;
 
     std::vector<blob_t> blobs;
     tensor_blobs<int8_t>(rng, blobs, scale);
@@ -571,6 +613,21 @@ int main(int argc, char* argv[])
     tensor_blobs<float>(rng, blobs, scale);
     tensor_blobs<double>(rng, blobs, scale);
     const auto ntensors = blobs.size();
+    // tensor streams of the previous format (version 0), still read
+    {
+        const auto reps = sanitized ? int64_t{1} : std::max<int64_t>(1, scale / 3);
+        tensor_blobs_v0<int8_t>(rng, blobs, reps, !sanitized);
+        tensor_blobs_v0<int16_t>(rng, blobs, reps, !sanitized);
+        tensor_blobs_v0<int32_t>(rng, blobs, reps, !sanitized);
+        tensor_blobs_v0<int64_t>(rng, blobs, reps, !sanitized);
+        tensor_blobs_v0<uint8_t>(rng, blobs, reps, !sanitized);
+        tensor_blobs_v0<uint16_t>(rng, blobs, reps, !sanitized);
+        tensor_blobs_v0<uint32_t>(rng, blobs, reps, !sanitized);
+        tensor_blobs_v0<uint64_t>(rng, blobs, reps, !sanitized);
+        tensor_blobs_v0<float>(rng, blobs, reps, !sanitized);
+        tensor_blobs_v0<double>(rng, blobs, reps, !sanitized);
+    }
+    const auto nsmall0 = blobs.size();
 
     // parameters of every kind
     blobs.push_back(parameter_blob(parameter_t::make_integer("int", 0, LE, 7, LT, 100)));
@@ -688,9 +745,38 @@ int main(int argc, char* argv[])
         std::fprintf(stderr, "pre-fit failed: %s\n", e.what());
         throw;
     }
-    for (int64_t rep = 0; rep < std::max<int64_t>(1, scale / 2); ++rep)
+    // unfitted weak learners and linear models (nothing but their parameters to read back)
+    for (const auto& id : wlearner_t::all().ids())
     {
-        auto       problem = std::make_shared<vt::problem_t>(vt::make_problem(rng, false, true));
+        auto wlearner = wlearner_t::all().get(id);
+        shake(*wlearner, rng);
+        std::ostringstream os;
+        wlearner->write(os);
+        blobs.push_back(factory_blob<wlearner_t>("wlearner-unfitted", wlearner, [bytes = os.str()](const wlearner_t& copy) { return rewrites_as(copy, bytes); }));
+    }
+    for (const auto& id : linear_t::all().ids())
+    {
+        auto model = std::shared_ptr<linear_t>(linear_t::all().get(id));
+        shake(*model, rng);
+        std::ostringstream os;
+        model->write(os);
+        blob_t blob;
+        blob.kind   = "linear-unfitted:" + id;
+        blob.bytes  = os.str();
+        blob.versions.push_back(0U);
+        blob.reader = [id, model, bytes = blob.bytes, pre = rng.coin() ? std::string{} : other_linear](std::istream& stream)
+        {
+            auto copy = linear_t::all().get(id);
+            preload(*copy, pre);
+            copy->read(stream);
+            return copy->parameters() == model->parameters() && copy->weights().size() == 0 && copy->bias().size() == 0 && rewrites_as(*copy, bytes);
+        };
+        blobs.push_back(blob);
+    }
+
+    // problems: regression with one output (all blobs), then classification or regression with several outputs
+    const auto fitted_blobs = [&](const std::shared_ptr<vt::problem_t>& problem, const std::string& loss_id, const std::string& tag, const bool reduced)
+    {
         const auto dataset = std::shared_ptr<const dataset_t>(problem, problem->dataset.get());
         const auto samples = arange(0, dataset->samples());
         tensor4d_t gradients(cat_dims(samples.size(), dataset->target_dims()));
@@ -700,6 +786,10 @@ int main(int argc, char* argv[])
         }
         for (const auto& id : wlearner_t::all().ids())
         {
+            if (reduced)
+            {
+                break;
+            }
             auto wlearner = wlearner_t::all().get(id);
             if (id == "dtree")
             {
@@ -711,35 +801,35 @@ int main(int argc, char* argv[])
                 continue;
             }
             const auto expected = std::make_shared<tensor4d_t>(wlearner->predict(*dataset, samples));
-            auto       blob     = factory_blob<wlearner_t>("wlearner", wlearner,
+            auto       blob     = factory_blob<wlearner_t>("wlearner" + tag, wlearner,
                                                  [dataset, samples, expected](const wlearner_t& copy)
                                                  { return same_bits(copy.predict(*dataset, samples), *expected); });
-            if (const auto* single = dynamic_cast<const single_feature_wlearner_t*>(wlearner.get()); single != nullptr)
-            {
-                locate_payload(blob, single->tables());
-            }
-            if (const auto* dtree = dynamic_cast<const dtree_wlearner_t*>(wlearner.get()); dtree != nullptr)
-            {
-                locate_payload(blob, dtree->tables());
-            }
+            locate_wlearner_payloads(blob, *wlearner);
             blobs.push_back(blob);
         }
-        const auto loss = std::shared_ptr<loss_t>(loss_t::all().get("mse"));
+        const auto loss = std::shared_ptr<loss_t>(loss_t::all().get(loss_id));
         {
             auto model = std::make_shared<gboost_model_t>();
-            model->parameter("gboost::max_rounds") = 12;
+            model->parameter("gboost::max_rounds") = reduced ? 5 : 12;
             model->parameter("gboost::patience")   = 3;
             rwlearners_t prototypes;
             prototypes.emplace_back(wlearner_t::all().get("affine"));
             prototypes.emplace_back(wlearner_t::all().get("dense-table"));
             prototypes.emplace_back(wlearner_t::all().get("stump"));
+            // ... and the other weak learners: decision trees, hinges and the tables over subsets of the labels
+            prototypes.emplace_back(wlearner_t::all().get("dtree"));
+            prototypes.back()->parameter("wlearner::dtree::max_depth") = 2;
+            prototypes.emplace_back(wlearner_t::all().get("hinge"));
+            prototypes.emplace_back(wlearner_t::all().get("kbest-table"));
+            prototypes.emplace_back(wlearner_t::all().get("ksplit-table"));
+            prototypes.emplace_back(wlearner_t::all().get("dstep-table"));
             model->prototypes(prototypes);
             model->fit(*dataset, samples, *loss);
             std::ostringstream os;
             model->write(os);
             const auto expected = std::make_shared<tensor4d_t>(model->predict(*dataset, samples));
             blob_t     blob;
-            blob.kind   = "gboost";
+            blob.kind   = "gboost" + tag;
             blob.bytes  = os.str();
             blob.reader = [model, dataset, samples, expected, bytes = blob.bytes](std::istream& stream)
             {
@@ -749,7 +839,18 @@ int main(int argc, char* argv[])
                        same_bits(copy.predict(*dataset, samples), *expected) && rewrites_as(copy, bytes);
             };
             locate_payload(blob, model->bias());
+            // the tensors and the version fields of the weak learners nested in the model
+            for (const auto& wlearner : model->wlearners())
+            {
+                locate_wlearner_payloads(blob, *wlearner);
+            }
+            blob.versions.push_back(0U);
+            locate_versions(blob, wlearner_t::all().ids());
             blobs.push_back(blob);
+            if (reduced)
+            {
+                return;
+            }
 
             // into used destinations: the fitted model read over a model without weak learners / prototypes and the other way round,
             // and over a model fitted on another problem
@@ -758,7 +859,7 @@ int main(int argc, char* argv[])
             empty.write(eos);
             const auto ebytes = eos.str();
             auto       used   = blob;
-            used.kind         = "gboost-into-used";
+            used.kind         = "gboost-into-used" + tag;
             used.reader       = [model, dataset, samples, expected, bytes = blob.bytes, pre = rng.coin() ? ebytes : other_gboost](std::istream& stream)
             {
                 gboost_model_t copy;
@@ -769,7 +870,7 @@ int main(int argc, char* argv[])
             };
             blobs.push_back(used);
             blob_t unfitted;
-            unfitted.kind   = "gboost-into-used";
+            unfitted.kind   = "gboost-into-used" + tag;
             unfitted.bytes  = ebytes;
             unfitted.reader = [ebytes, pre = blob.bytes](std::istream& stream)
             {
@@ -789,7 +890,7 @@ int main(int argc, char* argv[])
             model->write(os);
             const auto expected = std::make_shared<tensor4d_t>(model->predict(*dataset, samples));
             blob_t     blob;
-            blob.kind   = "linear:" + id;
+            blob.kind   = "linear" + tag + ":" + id;
             blob.bytes  = os.str();
             blob.reader = [id, model, dataset, samples, expected, bytes = blob.bytes](std::istream& stream)
             {
@@ -799,12 +900,13 @@ int main(int argc, char* argv[])
             };
             locate_payload(blob, model->weights());
             locate_payload(blob, model->bias());
+            blob.versions.push_back(0U);
             blobs.push_back(blob);
             if (!other_linear.empty())
             {
                 // into a used destination: a model of the same kind fitted on another problem (other inputs, other labels)
                 auto used   = blob;
-                used.kind   = "linear-into-used:" + id;
+                used.kind   = "linear-into-used" + tag + ":" + id;
                 used.reader = [id, model, dataset, samples, expected, bytes = blob.bytes, pre = other_linear](std::istream& stream)
                 {
                     auto copy = linear_t::all().get(id);
@@ -816,13 +918,32 @@ int main(int argc, char* argv[])
             }
             other_linear = blob.bytes;
         }
+    };
+    for (int64_t rep = 0; rep < std::max<int64_t>(1, scale / 2); ++rep)
+    {
+        fitted_blobs(std::make_shared<vt::problem_t>(vt::make_problem(rng, false, true)), "mse", "", false);
+        // classification (two classes) or regression with several outputs
+        if ((rep + static_cast<int64_t>(rng.coin())) % 2 == 0)
+        {
+            auto problem = std::make_shared<vt::problem_t>(vt::make_problem(rng, true, true));
+            for (int trial = 0; trial < 50 && !problem->classification; ++trial)
+            {
+                problem = std::make_shared<vt::problem_t>(vt::make_problem(rng, true, true));
+            }
+            fitted_blobs(problem, problem->classification ? "s-classnll" : "mse", problem->classification ? "-classes" : "", sanitized);
+        }
+        else
+        {
+            fitted_blobs(std::make_shared<vt::problem_t>(make_multi_problem(rng)), rng.coin() ? "mse" : "mae", "-outputs", sanitized);
+        }
     }
 
     for (size_t i = 0; i < blobs.size(); ++i)
     {
         // byte-level request traces for a sample of the tensors and all parameters/features
-        const auto bytelevel = (i < ntensors && i % 7 == 0 && blobs[i].bytes.size() <= 200) || (i >= ntensors && i < nsmall);
-        emit_runs(blobs[i], bytelevel);
+        const auto bytelevel = (i < ntensors && i % 7 == 0 && blobs[i].bytes.size() <= 200) || (i >= nsmall0 && i < nsmall) ||
+                               (i >= ntensors && i < nsmall0 && i % 5 == 0);
+        emit_runs(blobs[i], bytelevel, alterations, rng);
     }
     vt::put(vt::J("Outcomes").s("kind", "end-marker").i("full", 0).a("outcomes", std::vector<int64_t>{0}).b("same", true).b("consumedAll", true));
     return 0;
